@@ -78,6 +78,7 @@ CHECKS.update({
 NOT_YET = {}
 
 KERNELS = {"C11", "C15"}
+CONVS = {"C07", "C18"}
 UINTOPS = {"C01", "C02", "C03", "C05", "C06", "C08", "C09", "C10", "C12", "C13"}
 
 
@@ -91,6 +92,8 @@ def main():
             tech, text, note, ref = CHECKS[pid]
             if pid in UINTOPS:
                 tech += "; thorough tier adds coverage-guided fuzzing (cargo-fuzz/libFuzzer target uintops, 16 processes, num-bigint oracle inside the target)"
+            if pid in CONVS:
+                tech += "; thorough tier adds coverage-guided fuzzing (cargo-fuzz/libFuzzer target convs, 16 processes, exact integer / decoded IEEE-754 oracle inside the target)"
             if pid in KERNELS:
                 tech += "; thorough tier adds coverage-guided fuzzing (cargo-fuzz/libFuzzer target kernels, 16 processes, exact num-bigint identities inside the target)"
             checks.append({
@@ -121,8 +124,8 @@ def main():
              "kind_free_text": "generated Rust programs compiled with rustc --emit=link against rlibs built from /repo's working tree (cargo package probe_pkg), executed, diagnostics / stdout interpreted"},
             {"name": "vcore", "path": "/verif/harness", "serves_properties": sorted(CHECKS.keys()),
              "kind_free_text": "Rust crate: proptest-driven structured generation (TestRunner with fixed seeds, shrinking, replay files), exhaustive small-width enumeration, BigUint / reference-codec oracles, evidence writer"},
-            {"name": "fuzz", "path": "/verif/fuzz", "serves_properties": sorted(UINTOPS | KERNELS | {"C14", "C17"}),
-             "kind_free_text": "cargo-fuzz package (libFuzzer, ASan, nightly): targets uintops, kernels, divkernels, decoders with the oracle inside the target; run by ./check as a stage of the thorough tier (16 processes, fixed -runs, seeds derived from VERIF_SEED), crash artefacts become replay files"},
+            {"name": "fuzz", "path": "/verif/fuzz", "serves_properties": sorted(UINTOPS | KERNELS | CONVS | {"C14", "C17"}),
+             "kind_free_text": "cargo-fuzz package (libFuzzer, ASan, nightly): targets uintops, kernels, convs, divkernels, decoders with the oracle inside the target; run by ./check as a stage of the thorough tier (16 processes, fixed -runs, seeds derived from VERIF_SEED), crash artefacts become replay files"},
         ],
         "checks": checks,
         "not_applicable": na,
